@@ -51,7 +51,7 @@ def run(ctx):
         ("bynum-swapped", cc.mut_bynum), ("exclude-fork-block-dropped", cc.mut_exclude),
         ("obsolete-flag-cleared", cc.mut_obsolete), ("subscription-obsolete-flag-cleared", cc.mut_sub_obsolete),
         ("lookup-from-wrong-branch", cc.mut_lookup_branch),
-        ("add-deleted", cc.mut_delete("Add")), ("read-deleted", cc.mut_delete("Read")),
+        ("add-deleted", cc.mut_delete("Add")), ("read-deleted", cc.mut_delete_read),
         ("reopen-deleted-best-moved", cc.mut_reopen)])
 
     # 3. implementation -> model: random trees on a real Repository, every query from every head after every AddBlock,
@@ -67,7 +67,7 @@ def run(ctx):
     for k in acc[:2]:
         ctx.sample({"mode": runs[k][0]["mode"], "seed": runs[k][0]["seed"],
                     "events": [e for e in runs[k] if e["e"] in ("Add", "Read", "Excl")][:6]}, limit=4)
-    n_long = 2 if q else 16
+    n_long = 1 if q else 16
     runs, stats, how = cc.record(ctx, "chainindex", ["-mode", "long"], "long", n_long, seed_offset=5, tags=tags)
     acc = cc.validate_runs(ctx, runs, stats, "long", how, batch=4)
     all_stats += [stats[i] for i in acc]
